@@ -134,10 +134,12 @@ pub(crate) struct GlobalInferenceCtx<'a> {
     /// returned values of `str` and `u64` will cause a type mismatch error to be reported.
     /// But if a block is expected to be `str!u64` (via a type annotation or return type),
     /// returned values of `str` and `u64` will combine to `str!u64` and there will be no error
-    pub(crate) expected_tys: ArenaMap<Idx<hir::Expr>, ExprExpected>,
-    // todo: what happens to this when an uninferred global is reached?
-    // should this be stored in `ProjectInferenceCtx`?
-    pub(crate) local_usages: ArenaMap<Idx<hir::LocalDef>, FxHashSet<Idx<hir::Stmt>>>,
+    ///
+    /// (stored in `InferenceCtx`, see the comment on `inferred_stmts`)
+    pub(crate) expected_tys: &'a mut ArenaMap<Idx<hir::Expr>, ExprExpected>,
+    /// the statements that use each local. the statements that were inferred before this ctx got
+    /// destroyed aren't gone over again, so this is stored in `InferenceCtx` as well
+    pub(crate) local_usages: &'a mut ArenaMap<Idx<hir::LocalDef>, FxHashSet<Idx<hir::Stmt>>>,
     /// this is just an arena that physically stores the compile-time results
     /// associated with each comptime argument in a generic function call.
     pub(crate) generics_arena: &'a mut Arena<ComptimeResult>,
@@ -3792,8 +3794,8 @@ impl GlobalInferenceCtx<'_> {
                         world_bodies: self.world_bodies,
                         bodies: &self.world_bodies[lambda_loc.file()],
                         interner: self.interner,
-                        expected_tys: Default::default(),
-                        local_usages: Default::default(),
+                        expected_tys: &mut Default::default(),
+                        local_usages: &mut Default::default(),
                         generics_arena: self.generics_arena,
                         call_associated_generics: self.call_associated_generics,
                         inferred_stmts: self.inferred_stmts,
